@@ -38,7 +38,8 @@ pub open spec fn align_of(d: IndexData) -> int {
 }
 pub open spec fn align_pad(len: int, a: int) -> int { (a - len % a) % a }
 impl IndexData {
-    /// K:k_append_* (bounded Kani proofs on the real `IndexData::append`, all ten types)
+    /// V:c09_append:IndexData::append (proved there on the verbatim body, any sizes); K:k_append_* cross-check the
+    /// same assertions on the real function with the real std iterators for small sizes
     #[verifier::external_body]
     pub fn append(&self, store: &mut Vec<u8>) -> (r: u32)
         ensures
